@@ -62,6 +62,22 @@ def label(it):
         return "sequence " + it["seq"]
     return it[0]
 
+def make_mandatory(it):
+    if isinstance(it, dict) and "one_of" in it:
+        return {"one_of": [make_mandatory(a) for a in it["one_of"]]}
+    if isinstance(it, dict):
+        return dict(it, min=max(1, it["min"]))
+    return [it[0], it[1].replace("O", "M")] + list(it[2:])
+
+def nonempty_forms(inner):
+    """the non-empty words of an item list, as item lists that cannot be empty: if the list can be empty, one form per
+    item that is the first one present"""
+    if not inner:
+        return []
+    if not all(nullable(x) for x in inner):
+        return [inner]
+    return [[make_mandatory(inner[j])] + inner[j + 1:] for j in range(len(inner))]
+
 def deletions(items, where=""):
     """[(description, items')]: the item lists in which exactly one mandatory element is missing: a mandatory field, every
     occurrence of a mandatory repetitive field, a whole mandatory sequence, or a mandatory element of ONE occurrence of a
@@ -73,23 +89,110 @@ def deletions(items, where=""):
         if mandatory(it) and not same_next:      # (34F M, 34F O: without the first, the second takes its place)
             out.append((where + label(it), items[:i] + items[i + 1:]))
         if isinstance(it, dict) and "items" in it:
-            for desc, inner in deletions(it["items"], where + it["seq"] + "."):
-                if not inner or all(nullable(x) for x in inner):
-                    continue      # the occurrence would be empty: that is the deletion of the occurrence itself
-                any_g = dict(it, min=0, max=None)
-                broken = {"seq": it["seq"] + "'", "min": 1, "max": 1, "items": inner}
-                if it["max"] == 1:       # a sequence that occurs at most once: its only occurrence is the broken one
-                    out.append((desc, items[:i] + [broken] + items[i + 1:]))
-                else:
-                    out.append((desc, items[:i] + [any_g, broken, any_g] + items[i + 1:]))
+            for desc, inner0 in deletions(it["items"], where + it["seq"] + "."):
+              for inner in nonempty_forms(inner0):
+                  any_g = dict(it, min=0, max=None)
+                  broken = {"seq": it["seq"] + "'", "min": 1, "max": 1, "items": inner}
+                  if it["max"] == 1:       # a sequence that occurs at most once: its only occurrence is the broken one
+                      out.append((desc, items[:i] + [broken] + items[i + 1:]))
+                  else:
+                      out.append((desc, items[:i] + [any_g, broken, any_g] + items[i + 1:]))
     return out
 
+# ---- a small regular-expression engine (derivatives), used only to leave out the deletion languages that still contain
+# a word of the specification (the optional element of a neighbour takes the place of what was deleted)
+def r_item(it):
+    if isinstance(it, dict) and "one_of" in it:
+        r = ("none",)
+        for a in it["one_of"]:
+            r = ("alt", r_item(a), r)
+        return r
+    if isinstance(it, dict):
+        return ("rep", r_seq(it["items"]), it["min"], it["max"])
+    t = ("tag", frozenset(tags_of(it)))
+    st = it[1]
+    return {"M": t, "O": ("alt", t, ("eps",)), "M*": ("rep", t, 1, None), "O*": ("rep", t, 0, None)}[st]
+
+def r_seq(items):
+    r = ("eps",)
+    for it in reversed(items):
+        r = ("seq", r_item(it), r)
+    return r
+
+def r_null(r):
+    k = r[0]
+    if k == "eps": return True
+    if k in ("none", "tag"): return False
+    if k == "seq": return r_null(r[1]) and r_null(r[2])
+    if k == "alt": return r_null(r[1]) or r_null(r[2])
+    return r[2] == 0
+
+def r_seq2(a, b):
+    if a[0] == "none" or b[0] == "none": return ("none",)
+    if a[0] == "eps": return b
+    if b[0] == "eps": return a
+    return ("seq", a, b)
+
+def r_alt2(a, b):
+    if a[0] == "none": return b
+    if b[0] == "none": return a
+    if a == b: return a
+    return ("alt", a, b)
+
+def r_der(t, r):
+    k = r[0]
+    if k in ("none", "eps"): return ("none",)
+    if k == "tag": return ("eps",) if t in r[1] else ("none",)
+    if k == "seq":
+        d = r_seq2(r_der(t, r[1]), r[2])
+        return r_alt2(d, r_der(t, r[2])) if r_null(r[1]) else d
+    if k == "alt": return r_alt2(r_der(t, r[1]), r_der(t, r[2]))
+    _, x, lo, hi = r
+    if hi == 0: return ("none",)
+    return r_seq2(r_der(t, x), ("rep", x, max(lo - 1, 0), None if hi is None else hi - 1))
+
+def r_tags(r, acc):
+    if r[0] == "tag": acc |= r[1]
+    for c in r[1:]:
+        if isinstance(c, tuple): r_tags(c, acc)
+    return acc
+
+def common_word(a, b):
+    """a word of both languages, or None (breadth first over pairs of derivatives)"""
+    sigma = sorted(r_tags(a, set()) | r_tags(b, set()))
+    seen = {(a, b)}
+    todo = [((a, b), [])]
+    while todo:
+        (x, y), w = todo.pop(0)
+        if r_null(x) and r_null(y):
+            return w
+        if len(seen) > 20000:
+            return w        # give up: treat as ambiguous (leave the language out)
+        for t in sigma:
+            dx, dy = r_der(t, x), r_der(t, y)
+            if dx[0] == "none" or dy[0] == "none" or (dx, dy) in seen:
+                continue
+            seen.add((dx, dy)); todo.append(((dx, dy), w + [t]))
+    return None
+
 def deletion_table(S):
-    rows = []
+    rows, arows = [], []
     for T in sorted(k for k in S if k.startswith("MT")):
-        ds = deletions(S[T])
-        rows.append("  (%s, [%s])" % (q(T), "; ".join("(%s, %s)" % (q(d), seq(a) if a else "REps") for d, x in ds for a in alternatives(x))))
-    return ["Definition spec_deletions : list (bytes * list (bytes * re)) := [", ";\n".join(rows), "]."]
+        full = r_seq(S[T])
+        ok, amb = [], []
+        for d, x in deletions(S[T]):
+            for a in alternatives(x):
+                w = common_word(r_seq(a), full)
+                if w is None:
+                    ok.append((d, a))
+                else:
+                    amb.append((d, a, w))
+        rows.append("  (%s, [%s])" % (q(T), "; ".join("(%s, %s)" % (q(d), seq(a) if a else "REps") for d, a in ok)))
+        arows.append("  (%s, [%s])" % (q(T), "; ".join("(%s, (%s, [%s]))" % (q(d), seq(a) if a else "REps", "; ".join(q(t) for t in w)) for d, a, w in amb)))
+    return (["Definition spec_deletions : list (bytes * list (bytes * re)) := [", ";\n".join(rows), "].", "",
+             "(* left out of spec_deletions: with the element deleted the text can still be a word of the specification (an optional",
+             "   element of a neighbour takes its place); each with a word that is in both languages *)",
+             "Definition spec_deletions_ambiguous : list (bytes * list (bytes * (re * list bytes))) := [", ";\n".join(arows), "]."])
 
 def alternatives(items):
     """the same language as a finite union: each top-level sequence that occurs at most once (min 0, max 1) is either
